@@ -233,3 +233,291 @@ Proof.
   intros H Hl. destruct (fold_override_path (k :: pi) layers (JDict []) r H I Hl) as [P _].
   rewrite P. unfold pick. destruct (first_some (val (k :: pi)) (rev layers)); reflexivity.
 Qed.
+
+(* the precedence statements about the configuration that raw=True returns *)
+Lemma resolve_raw_precedence dflt d files p stage name c u m :
+  find_comp d stage name = Some c -> user_vars files = Some u ->
+  resolve_raw dflt d files p stage name = Ok m ->
+  (forall k pi, k <> "variables" ->
+     Forall (fun l => nodict (get_path (k :: pi) l)) (opt_layers dflt d p (zrepr stage) c) ->
+     val (k :: pi) m = first_some (val (k :: pi)) (rev (opt_layers dflt d p (zrepr stage) c)))
+  /\ (forall v, get_path ["variables"; v] m = first_some (lookup v) (rev (var_layers d u p (zrepr stage) c))).
+Proof.
+  intros Hc Hu H. unfold resolve_raw in H. rewrite Hc, Hu in H. unfold view, merged_of in H.
+  destruct (fold_override (Some (JDict [])) (opt_layers dflt d p (zrepr stage) c)) as [[| | | | | |m0]|] eqn:Ef;
+    try discriminate.
+  injection H as <-. split.
+  - intros k pi Hk Hl. rewrite <- (fold_override_precedence _ _ k pi Ef Hl).
+    unfold val. rewrite !get_path_cons_dict, lookup_set_key.
+    destruct (String.eqb k "variables") eqn:E; [apply String.eqb_eq in E; contradiction|reflexivity].
+  - intros v. rewrite get_path_cons_dict, lookup_set_key, String.eqb_refl.
+    cbn [get_path]. rewrite layer_vars_precedence. destruct (first_some (lookup v) _); reflexivity.
+Qed.
+
+(* ================================================================== C. no leak between platforms *)
+Definition same_for (p sk : string) (d d' : doc) : Prop :=
+  forall P, P = "default" \/ P = p ->
+    get_path [P; "global"] (d_blueprint d) = get_path [P; "global"] (d_blueprint d') /\
+    get_path [P; "stages"; sk] (d_blueprint d) = get_path [P; "stages"; sk] (d_blueprint d') /\
+    get_path [P; "global"] (d_variables d) = get_path [P; "global"] (d_variables d') /\
+    get_path [P; "stages"; sk] (d_variables d) = get_path [P; "stages"; sk] (d_variables d').
+
+Definition comp_same (p : string) (c c' : jv) : Prop :=
+  comp_layer c = comp_layer c' /\ get_path ["variables"] c = get_path ["variables"] c' /\
+  get_path ["override"; p] c = get_path ["override"; p] c'.
+
+Lemma get_path_app p1 p2 v :
+  get_path (p1 ++ p2) v = match get_path p1 v with Some w => get_path p2 w | None => None end.
+Proof.
+  revert v; induction p1 as [|k r IH]; intros v; [reflexivity|].
+  cbn. destruct v; try reflexivity. destruct (lookup k m); [apply IH|reflexivity].
+Qed.
+
+Lemma view_no_leak dflt d d' u p stage c c' :
+  same_for p (zrepr stage) d d' -> comp_same p c c' ->
+  view dflt d u p stage c = view dflt d' u p stage c'.
+Proof.
+  intros Hs (C1 & C2 & C3).
+  destruct (Hs "default" (or_introl eq_refl)) as (A1 & A2 & A3 & A4).
+  destruct (Hs p (or_intror eq_refl)) as (B1 & B2 & B3 & B4).
+  assert (C4 : get_path ["override"; p; "variables"] c = get_path ["override"; p; "variables"] c').
+  { change ["override"; p; "variables"] with ((["override"; p] ++ ["variables"])%list). rewrite !get_path_app, C3. reflexivity. }
+  unfold view, opt_layers, var_layers, bp_global, bp_stage, vars_global, vars_stage, comp_override, get_or.
+  rewrite A1, A2, A3, A4, B1, B2, B3, B4, C1, C2, C3, C4. reflexivity.
+Qed.
+
+Lemma resolve_no_leak dflt d d' files p stage name c c' :
+  find_comp d stage name = Some c -> find_comp d' stage name = Some c' ->
+  same_for p (zrepr stage) d d' -> comp_same p c c' ->
+  resolve dflt d files p stage name = resolve dflt d' files p stage name /\
+  resolve_raw dflt d files p stage name = resolve_raw dflt d' files p stage name.
+Proof.
+  intros H1 H2 Hs Hc. unfold resolve, resolve_raw. rewrite H1, H2.
+  destruct (user_vars files) as [u|]; [|split; reflexivity].
+  rewrite (view_no_leak dflt d d' u p stage c c' Hs Hc). split; reflexivity.
+Qed.
+
+(* ================================================================== D. interpolation *)
+Lemma finish_str_err r e : finish_str r = Err e -> e = EIncomplete \/ r = Err e.
+Proof.
+  destruct r as [t|e0]; cbn; [|intros H; right; exact H].
+  destruct (has_incomplete t); [|discriminate]. intros H. injection H as <-. left; reflexivity.
+Qed.
+
+Lemma finish_str_ok r t : finish_str r = Ok t -> r = Ok t.
+Proof.
+  destruct r as [t0|e0]; cbn; [|discriminate]. destruct (has_incomplete t0); [discriminate|]. exact (fun H => H).
+Qed.
+
+Lemma subst_toks_err rv top ts e : subst_toks rv top ts = Err e ->
+  (e = EScope /\ top = false) \/ exists n, In (TRef n) ts /\ dotted n = false /\ rv n = Err e.
+Proof.
+  induction ts as [|[c|n] r IH]; cbn [subst_toks]; intros H.
+  - discriminate.
+  - destruct (subst_toks rv top r) as [t|e0]; cbn in H; [discriminate|]. injection H as ->.
+    destruct (IH eq_refl) as [L|(n & I1 & I2 & I3)]; [left; exact L|right; exists n; cbn; auto].
+  - destruct (dotted n) eqn:Ed.
+    + destruct top.
+      * destruct (subst_toks rv true r) as [t|e0]; cbn in H; [discriminate|]. injection H as ->.
+        destruct (IH eq_refl) as [L|(n' & I1 & I2 & I3)]; [left; exact L|right; exists n'; cbn; auto].
+      * injection H as <-. left; split; reflexivity.
+    + destruct (rv n) as [v|e0] eqn:Ev; cbn in H.
+      * destruct (subst_toks rv top r) as [t|e1]; cbn in H; [discriminate|]. injection H as ->.
+        destruct (IH eq_refl) as [L|(n' & I1 & I2 & I3)]; [left; exact L|right; exists n'; cbn; auto].
+      * injection H as ->. right. exists n. cbn. auto.
+Qed.
+
+Lemma subst_toks_ok rv top ts t : subst_toks rv top ts = Ok t ->
+  forall n, In (TRef n) ts -> dotted n = false -> exists v, rv n = Ok v.
+Proof.
+  revert t; induction ts as [|[c|n0] r IH]; cbn [subst_toks]; intros t H n Hin Hd.
+  - destruct Hin.
+  - destruct (subst_toks rv top r) as [t0|e0]; cbn in H; [|discriminate].
+    destruct Hin as [Hin|Hin]; [discriminate|]. eapply IH; eauto.
+  - destruct (dotted n0) eqn:Ed.
+    + destruct top; [|discriminate].
+      destruct (subst_toks rv true r) as [t0|e0]; cbn in H; [|discriminate].
+      destruct Hin as [Hin|Hin]; [injection Hin as ->; congruence|]. eapply IH; eauto.
+    + destruct (rv n0) as [v|e0] eqn:Ev; cbn in H; [|discriminate].
+      destruct (subst_toks rv top r) as [t0|e1]; cbn in H; [|discriminate].
+      destruct Hin as [Hin|Hin]; [injection Hin as <-; exists v; exact Ev|]. eapply IH; eauto.
+Qed.
+
+(* an "unknown variable" error names a variable that is undefined and is referenced by the string being
+   resolved or by the value of some variable *)
+Lemma resolve_var_unknown ctx : forall fuel n v, resolve_var fuel ctx n = Err (EUnknown v) ->
+  lookup v ctx = None /\ (v = n \/ exists w s, lookup w ctx = Some (JStr s) /\ In (TRef v) (scan 0 s)).
+Proof.
+  induction fuel as [|f IH]; intros n v H; cbn in H; [discriminate|].
+  destruct (lookup n ctx) as [[| | | |s| |]|] eqn:El; try discriminate.
+  - destruct (finish_str_err _ _ H) as [E|E]; [discriminate|].
+    destruct (subst_toks_err _ _ _ _ E) as [[E1 _]|(n' & I1 & I2 & I3)]; [discriminate|].
+    destruct (IH n' v I3) as [U [E1|R]].
+    + subst n'. split; [exact U|]. right. exists n, s. split; assumption.
+    + split; [exact U|right; exact R].
+  - injection H as <-. split; [exact El|left; reflexivity].
+Qed.
+
+Lemma interp_string_unknown ctx s v : interp_string ctx s = Err (EUnknown v) ->
+  lookup v ctx = None /\
+  (In (TRef v) (scan 0 s) \/ exists w s', lookup w ctx = Some (JStr s') /\ In (TRef v) (scan 0 s')).
+Proof.
+  unfold interp_string. intros H.
+  destruct (finish_str_err _ _ H) as [E|E]; [discriminate|].
+  destruct (subst_toks_err _ _ _ _ E) as [[E1 _]|(n' & I1 & I2 & I3)]; [discriminate|].
+  destruct (resolve_var_unknown ctx _ n' v I3) as [U [E1|R]].
+  - subst n'. split; [exact U|left; exact I1].
+  - split; [exact U|right; exact R].
+Qed.
+
+(* a successful resolution never passed over a reference to an undefined variable *)
+Lemma interp_string_ok_defined ctx s t : interp_string ctx s = Ok t ->
+  forall n, In (TRef n) (scan 0 s) -> dotted n = false -> lookup n ctx <> None.
+Proof.
+  unfold interp_string. intros H n Hin Hd.
+  apply finish_str_ok in H. destruct (subst_toks_ok _ _ _ _ H n Hin Hd) as [v Hv].
+  unfold fuel_of in Hv. cbn in Hv. intros E. rewrite E in Hv. discriminate.
+Qed.
+
+(* a ranking of the variables that decreases along references excludes the cycle error *)
+Lemma resolve_var_no_cycle ctx (rank : string -> nat) :
+  (forall w s n', lookup w ctx = Some (JStr s) -> In (TRef n') (scan 0 s) -> rank n' < rank w) ->
+  forall fuel n, rank n < fuel -> resolve_var fuel ctx n <> Err ECycle.
+Proof.
+  intros Hr. induction fuel as [|f IH]; intros n Hn H; [lia|]. cbn in H.
+  destruct (lookup n ctx) as [[| | | |s| |]|] eqn:El; try discriminate.
+  destruct (finish_str_err _ _ H) as [E|E]; [discriminate|].
+  destruct (subst_toks_err _ _ _ _ E) as [[E1 _]|(n' & I1 & I2 & I3)]; [discriminate|].
+  apply (IH n'); [|exact I3]. specialize (Hr n s n' El I1). lia.
+Qed.
+
+Lemma interp_string_no_cycle ctx (rank : string -> nat) s :
+  (forall w s n', lookup w ctx = Some (JStr s) -> In (TRef n') (scan 0 s) -> rank n' < rank w) ->
+  (forall n, rank n <= length ctx) ->
+  interp_string ctx s <> Err ECycle.
+Proof.
+  intros Hr Hb H. unfold interp_string in H.
+  destruct (finish_str_err _ _ H) as [E|E]; [discriminate|].
+  destruct (subst_toks_err _ _ _ _ E) as [[E1 _]|(n' & I1 & I2 & I3)]; [discriminate|].
+  apply (resolve_var_no_cycle ctx rank Hr (fuel_of ctx) n'); [|exact I3]. unfold fuel_of. specialize (Hb n'). lia.
+Qed.
+
+(* ---- nothing is left to resolve *)
+Definition not_pct (c : ascii) : bool := negb (Ascii.eqb c "%").
+Definition no_pct (s : string) : Prop := all_chars not_pct s = true.
+
+Lemma no_pct_app a b : no_pct a -> no_pct b -> no_pct (a ++ b).
+Proof.
+  unfold no_pct. induction a as [|c a IH]; cbn; intros Ha Hb; [exact Hb|].
+  apply andb_true_iff in Ha as [H1 H2]. rewrite H1. cbn. apply IH; assumption.
+Qed.
+
+Lemma no_pct_uint u : no_pct (DecimalString.NilEmpty.string_of_uint u).
+Proof. unfold no_pct. induction u; cbn; try rewrite IHu; reflexivity. Qed.
+
+Lemma no_pct_dec n : no_pct (dec n).
+Proof.
+  unfold dec, DecimalString.NilZero.string_of_uint. destruct (N.to_uint n); try reflexivity; apply no_pct_uint.
+Qed.
+
+Lemma no_pct_zrepr z : no_pct (zrepr z).
+Proof. unfold zrepr. destruct (z <? 0)%Z; [apply no_pct_app; [reflexivity|]|]; apply no_pct_dec. Qed.
+
+Definition lits_plain (ts : list tok) : Prop := forall c, In (TChr c) ts -> not_pct c = true.
+Definition no_dotted (ts : list tok) : Prop := forall n, In (TRef n) ts -> dotted n = false.
+
+Lemma subst_toks_no_pct rv top ts :
+  (forall n v, rv n = Ok v -> no_pct v) -> lits_plain ts -> (top = true -> no_dotted ts) ->
+  forall t, subst_toks rv top ts = Ok t -> no_pct t.
+Proof.
+  intros Hrv. induction ts as [|[c|n] r IH]; intros Hl Hd t H; cbn [subst_toks] in H.
+  - injection H as <-. reflexivity.
+  - destruct (subst_toks rv top r) as [t0|e0] eqn:E; cbn in H; [|discriminate]. injection H as <-.
+    unfold no_pct. cbn. rewrite (Hl c (or_introl eq_refl)). cbn.
+    apply IH; [intros c' Hc'; apply Hl; right; exact Hc'|intros Ht n' Hn'; apply (Hd Ht); right; exact Hn'|reflexivity].
+  - assert (Hl' : lits_plain r) by (intros c' Hc'; apply Hl; right; exact Hc').
+    assert (Hd' : top = true -> no_dotted r) by (intros Ht n' Hn'; apply (Hd Ht); right; exact Hn').
+    destruct (dotted n) eqn:Ed.
+    + destruct top; [|discriminate]. rewrite (Hd eq_refl n (or_introl eq_refl)) in Ed. discriminate.
+    + destruct (rv n) as [v|e0] eqn:Ev; cbn in H; [|discriminate].
+      destruct (subst_toks rv top r) as [t0|e1] eqn:E; cbn in H; [|discriminate]. injection H as <-.
+      apply no_pct_app; [exact (Hrv n v Ev)|apply IH; auto].
+Qed.
+
+(* the context is plain: literal text of string values has no '%', float representations have none *)
+Definition ctx_plain (ctx : alist) : Prop :=
+  (forall w s, lookup w ctx = Some (JStr s) -> lits_plain (scan 0 s)) /\
+  (forall w r, lookup w ctx = Some (JFlt r) -> no_pct r).
+
+Lemma resolve_var_no_pct ctx : ctx_plain ctx -> forall fuel n v, resolve_var fuel ctx n = Ok v -> no_pct v.
+Proof.
+  intros [Hs Hf]. induction fuel as [|f IH]; intros n v H; cbn in H; [discriminate|].
+  destruct (lookup n ctx) as [[|b|z|r|s| |]|] eqn:El; try discriminate.
+  - injection H as <-. destruct b; reflexivity.
+  - injection H as <-. apply no_pct_zrepr.
+  - injection H as <-. exact (Hf n r El).
+  - apply finish_str_ok in H.
+    eapply (subst_toks_no_pct (resolve_var f ctx) false); [exact IH|exact (Hs n s El)|discriminate|exact H].
+Qed.
+
+Lemma interp_string_no_pct ctx s t :
+  ctx_plain ctx -> lits_plain (scan 0 s) -> no_dotted (scan 0 s) -> interp_string ctx s = Ok t -> no_pct t.
+Proof.
+  intros Hc Hl Hd H. unfold interp_string in H. apply finish_str_ok in H.
+  eapply (subst_toks_no_pct _ true); [|exact Hl|intros _; exact Hd|exact H].
+  intros n v. apply resolve_var_no_pct. exact Hc.
+Qed.
+
+Lemma match_ref_pct s n : match_ref s = Some n -> exists s', s = String "%" s'.
+Proof.
+  destruct s as [|a s]; [discriminate|]. cbn.
+  destruct a as [[] [] [] [] [] [] [] []]; try discriminate. intros _. eexists; reflexivity.
+Qed.
+
+Lemma no_pct_no_refs t : no_pct t -> forall k n, ~ In (TRef n) (scan k t).
+Proof.
+  unfold no_pct. induction t as [|c t IH]; intros H k n; cbn [scan]; [exact (fun x => x)|].
+  cbn in H. apply andb_true_iff in H as [H1 H2].
+  destruct k as [|k]; [|apply IH; exact H2].
+  destruct (match_ref (String c t)) as [m|] eqn:Em.
+  - destruct (match_ref_pct _ _ Em) as [s' Es]. injection Es as -> _. discriminate.
+  - intros [F|F]; [discriminate|]. exact (IH H2 0 n F).
+Qed.
+
+(* ================================================================== E. typed leaves *)
+Definition has_conv_type (k : conv) (v : jv) : Prop :=
+  match k, v with
+  | CStr, JStr _ | CInt, JInt _ | CBool, JBool _ | CB2, JBool _ | CS2B, JBool _ | CFloat, JFlt _ | COpaque, _ => True
+  | _, _ => False
+  end.
+
+Definition convertible (v : jv) : Prop := match v with JStr _ | JInt _ | JBool _ => True | _ => False end.
+
+Lemma conv_leaf_typed k v v' : conv_leaf k v = Some v' ->
+  (convertible v -> has_conv_type k v') /\ (~ convertible v -> v' = v).
+Proof.
+  intros H. split.
+  - intros Hc. destruct v; try contradiction; destruct k; cbn in H;
+      try (injection H as <-; exact I);
+      try (destruct (parse_int s); cbn in H; [injection H as <-; exact I|discriminate]);
+      try (destruct (str_to_bool s); cbn in H; [injection H as <-; exact I|discriminate]);
+      try discriminate.
+  - intros Hn. destruct v; cbn in Hn; try (exfalso; apply Hn; exact I); cbn in H.
+    1-3: injection H as <-; reflexivity.
+    destruct m; [injection H as <-; reflexivity|]. destruct k; try discriminate. injection H as <-; reflexivity.
+Qed.
+
+Lemma get_set_path_same : forall pi x v, get_path pi (set_path pi x v) = Some x.
+Proof.
+  induction pi as [|k r IH]; intros x v; [reflexivity|].
+  cbn [set_path]. rewrite get_path_cons_dict, lookup_set_key, String.eqb_refl. apply IH.
+Qed.
+
+(* one row of the conversion table: the leaf at the row's path is converted by the row's converter *)
+Lemma convert_at_typed pi k v v' x : convert_at (pi, k) (Ok v) = Ok v' -> get_path pi v = Some x ->
+  exists x', conv_leaf k x = Some x' /\ get_path pi v' = Some x'.
+Proof.
+  unfold convert_at. cbn. intros H Hx. rewrite Hx in H.
+  destruct (conv_leaf k x) as [x'|] eqn:Ec; [|discriminate]. injection H as <-.
+  exists x'. split; [reflexivity|apply get_set_path_same].
+Qed.
